@@ -30,4 +30,17 @@ theorem hasNext_after_reset (m : S_flexfec_util_MediaPacketIterator) :
   | nil => simp
   | cons a t => simp
 
+/-! ## NewMediaPacketIterator -/
+
+/-- ★ the constructor as written in the source yields an iterator that is already rewound: `Reset` is the
+identity on it. -/
+theorem new_reset (ps : List S_rtp_Packet) (cov : List Int) :
+    (flexfec_util_MediaPacketIterator_Reset (flexfec_util_NewMediaPacketIterator ps cov)).2 =
+      flexfec_util_NewMediaPacketIterator ps cov := rfl
+
+/-- ★ a fresh iterator has a next packet exactly when the row covers at least one. -/
+theorem new_hasNext (ps : List S_rtp_Packet) (cov : List Int) :
+    flexfec_util_MediaPacketIterator_HasNext (flexfec_util_NewMediaPacketIterator ps cov) = true ↔ cov ≠ [] := by
+  rw [← new_reset, hasNext_after_reset]; rfl
+
 end Interceptor.Facts.FnFecIter
